@@ -77,6 +77,12 @@ def gen_case(rng, wd, job_exe):
         c["shell"] = "/bin/sh"
     c["umask"] = rng.choice([0o22, 0o27, 0o77, 0o0, 0o66, 0o137])
     c["norun"] = rng.random() < 0.08
+    # the files may be there already, from an earlier and more talkative run
+    c["stale"] = rng.random() < 0.35
+    if c["stale"]:
+        for f in (c["ofile"], c["efile"]):
+            if f:
+                open(f, "wb").write(b"#" * rng.choice([1, 500, 300000]))
     return c
 
 
@@ -237,7 +243,8 @@ def run_case(root, part, rng):
         part.count("mails_recorded", 1 if r.mail else 0)
         part.count("tmpfiles_seen", len(r.tmpfiles))
         big = max(len(c["stdout"]), len(c["stderr"])) > 65536
-        part.nontrivial.add("%s %s %s%s" % (row, "big" if big else "small", "sig" if c["signal"] else "exit", " norun" if c["norun"] else ""))
+        part.nontrivial.add("%s %s %s%s%s" % (row, "big" if big else "small", "sig" if c["signal"] else "exit", " norun" if c["norun"] else "",
+                                              " stale" if c["stale"] else ""))
         for k, d in fails:
             part.violation(k, {"input": req, "detail": d, "journal": r.journal[-1200:], "shim_log": r.log[:10], "stderr": r.stderr[-500:],
                                "summary": "%s (row OFILE/EFILE/MAIL-OUT,ERR = %s, %d+%d bytes)" % (d, row, len(c["stdout"]), len(c["stderr"]))})
@@ -359,7 +366,7 @@ def main(tier):
     run.cov["rule"] = ("execution requests over all 20 rows of {OFILE none/F, EFILE none/same/F2} x MAIL-OUT x MAIL-ERR, with and without "
                        "ORGANIZER/ATTENDEE and MAIL-RUN, shells sh/bash/dash, umasks, IFILE, --no-run; the child writes 0..6 chunks of "
                        "0..200000 bytes (beyond pipe capacity) to stdout (lower-case stream) and stderr (upper-case stream) in random "
-                       "order, then exits with a code or kills itself; oracle: each file and the mail body filtered by alphabet must equal "
+                       "order, then exits with a code or kills itself; in a third of the cases the output files exist already with longer stale content; oracle: each file and the mail body filtered by alphabet must equal "
                        "exactly the wanted stream(s) (lost / duplicated / garbled / foreign bytes), mail sent iff due, recipients, "
                        "subject, exit status; journal: one entry, UID, SUMMARY, true exit status or signal, times; one spawn through "
                        "the requested shell with the command as given; cwd and umask as seen by the child; every mkstemp() file gone; "
